@@ -30,7 +30,7 @@ NAME_CLASSES = {
     'ws-edge': (' lead', 'trail ', ' both '),
     'unicode-edge': ('Sensor\u0663', 'Auto\ufeffSave', 'a\u2028b', 'a\u0085b', 'Caf\u00e9', 'Cafe\u0301', '\u212b', 'a\u00a0b', 'x\u00ad'),
     'numberlike': ('2', '64', '1.0', '1e3', 'nan', 'inf', '-1', '1_000', '0x1F', ' 7 ', '\u0663'),
-    'dashes': ('a--b', '--', 'a-->b', "A'", "x''", "'a", '<!--a'),
+    'dashes': ('a--b', '--', 'a-->b', "A'", "x''", "'a", '<!--a', '-O2', '-g', '_', '__', '-'),
     'rare': ('100%', 'e\u0301', 'a\u200bb', '\U0001f642x', 'n' * 120, 'a\\', '%d{0}', 'A', 'x_1_'),
 }
 
